@@ -335,6 +335,8 @@ def gen_c_driver(cases, crows, nvals, with_class):
              '#include "wrapsub_ns1.h"']
     if with_class:
         lines.append('#include "wrapns1_Cls.h"')
+    if with_class == "derived":
+        lines.append('#include "wrapns1_Derived.h"')
     lines.append("int main(void)\n{")
     calls = []
     missing = []
@@ -381,6 +383,8 @@ def gen_c_driver(cases, crows, nvals, with_class):
                 calls.append((c, tt, nsup, cname))
     if with_class:
         lines.append(CLS_DRIVER)
+    if with_class == "derived":
+        lines.append(DERIVED_CDRIVER)
     lines.append("  return 0;\n}")
     return "\n".join(lines) + "\n", calls, missing
 
@@ -460,6 +464,53 @@ CLS_DRIVER = r"""
       g = (int)SUB_ns1_Cls_get_tint(&d); MGET_I("tint", d, g);
     }
     (void)e;
+  }
+"""
+
+
+# a derived object through the C API: its own entry points, and the base class's entry points on the same capsule
+# (both capsule structs are {addr, idtor}; this is what the generated Fortran type EXTENDS relies on)
+DERIVED_CDRIVER = r"""
+  {
+    SUB_ns1_Derived e, f; int rv;
+    INV("SUB_ns1_Derived_ctor", "ns1::Derived::Derived(int,int)"); vt_int(4); vt_int(6); vt_end();
+    SUB_ns1_Derived_ctor(4, 6, &e);
+    RET("SUB_ns1_Derived_ctor", "ns1::Derived::Derived(int,int)"); vt_obj(e.addr); vt_end();
+    INV("SUB_ns1_Derived_ctor", "ns1::Derived::Derived(int,int)"); vt_int(-3); vt_int(0); vt_end();
+    SUB_ns1_Derived_ctor(-3, 0, &f);
+    RET("SUB_ns1_Derived_ctor", "ns1::Derived::Derived(int,int)"); vt_obj(f.addr); vt_end();
+    INV("SUB_ns1_Derived_extra", "ns1::Derived::extra()"); vt_obj(e.addr); vt_end();
+    rv = SUB_ns1_Derived_extra(&e);
+    RET("SUB_ns1_Derived_extra", "ns1::Derived::extra()"); vt_int(rv); vt_end();
+    INV("SUB_ns1_Cls_get", "ns1::Cls::get()"); vt_obj(e.addr); vt_end();
+    rv = SUB_ns1_Cls_get((SUB_ns1_Cls *) &e);
+    RET("SUB_ns1_Cls_get", "ns1::Cls::get()"); vt_int(rv); vt_end();
+    INV("SUB_ns1_Cls_set", "ns1::Cls::set(int)"); vt_obj(f.addr); vt_int(12); vt_end();
+    SUB_ns1_Cls_set((SUB_ns1_Cls *) &f, 12);
+    RET("SUB_ns1_Cls_set", "ns1::Cls::set(int)"); vt_end();
+    INV("SUB_ns1_Derived_extra", "ns1::Derived::extra()"); vt_obj(f.addr); vt_end();
+    rv = SUB_ns1_Derived_extra(&f);
+    RET("SUB_ns1_Derived_extra", "ns1::Derived::extra()"); vt_int(rv); vt_end();
+    INV("SUB_ns1_Cls_get", "ns1::Cls::get()"); vt_obj(f.addr); vt_end();
+    rv = SUB_ns1_Cls_get((SUB_ns1_Cls *) &f);
+    RET("SUB_ns1_Cls_get", "ns1::Cls::get()"); vt_int(rv); vt_end();
+    { int g;
+      g = SUB_ns1_Cls_get_value((SUB_ns1_Cls *) &f); MGET_I("value", f, g);
+      MSET_I("value", e, 8); SUB_ns1_Cls_set_value((SUB_ns1_Cls *) &e, 8);
+      INV("SUB_ns1_Derived_extra", "ns1::Derived::extra()"); vt_obj(e.addr); vt_end();
+      rv = SUB_ns1_Derived_extra(&e);
+      RET("SUB_ns1_Derived_extra", "ns1::Derived::extra()"); vt_int(rv); vt_end();
+      g = SUB_ns1_Cls_get_value((SUB_ns1_Cls *) &e); MGET_I("value", e, g);
+    }
+    INV("SUB_ns1_Derived_dtor", "ns1::Derived::~Derived()"); vt_obj(e.addr); vt_end();
+    SUB_ns1_Derived_dtor(&e);
+    RET("SUB_ns1_Derived_dtor", "ns1::Derived::~Derived()"); vt_end();
+    INV("SUB_ns1_Cls_count", "ns1::Cls::count()"); vt_end();
+    rv = SUB_ns1_Cls_count();
+    RET("SUB_ns1_Cls_count", "ns1::Cls::count()"); vt_int(rv); vt_end();
+    INV("SUB_ns1_Derived_dtor", "ns1::Derived::~Derived()"); vt_obj(f.addr); vt_end();
+    SUB_ns1_Derived_dtor(&f);
+    RET("SUB_ns1_Derived_dtor", "ns1::Derived::~Derived()"); vt_end();
   }
 """
 
@@ -610,7 +661,7 @@ def build_and_run_c(d, cases, with_class=True, nvals=4, options=None, extra_argv
     import yaml
 
     os.makedirs(d, exist_ok=True)
-    y, hpp, cpp = gen_library(cases, with_class, options)
+    y, hpp, cpp = gen_library(cases, bool(with_class), options, derived=(with_class == "derived"))
     with open(os.path.join(d, "sub.yaml"), "w") as f:
         yaml.safe_dump(y, f, default_flow_style=False, sort_keys=False)
     open(os.path.join(d, "sub.hpp"), "w").write(hpp)
